@@ -270,6 +270,9 @@ fn main() {
             if f.property == "C08" && f.class == class && f.known.is_none() {
                 hit = true;
             }
+            if class == "C08-generated-parser-panicked" && f.class == "C07-a-panic" && f.known.is_none() {
+                hit = true;
+            }
         }
         for (c, d) in other_modes(k, &sc) {
             println!("finding: property=C08 class={c} :: {d}");
@@ -354,7 +357,13 @@ fn main() {
                             if t.sample.is_none() && rep.n_errors > 0 {
                                 t.sample = Some(json!({"grammar_index": k, "scenario": sc, "errors": rep.n_errors}));
                             }
-                            for f in rep.findings {
+                            for mut f in rep.findings {
+                                // a generated parser that panics (a wrapper popping the wrong
+                                // number or kind of arguments) has not run its actions as C08 says
+                                if f.class == "C07-a-panic" && f.known.is_none() {
+                                    f.property = "C08".into();
+                                    f.class = "C08-generated-parser-panicked".into();
+                                }
                                 if f.property != "C08" {
                                     continue;
                                 }
